@@ -17,7 +17,20 @@ Failing cases are classified against the open findings F14a..F14j by region pred
 computed from the document.
 """
 import json, math
+import os
+from lib import coqrun
 from lib.coqrun import coq_str, coq_list, coq_bool, coq_Z, coq_opt
+
+
+def coq_eval_retry(ctx, exprs, imports, prelude, tag):
+    """ctx.coq with a moderate number of parallel coqc processes (memory) and one retry: a shard
+    killed from outside (OOM killer on a loaded machine) must not look like a broken proof tie."""
+    d = os.path.join(ctx.workdir, tag)
+    try:
+        return coqrun.coq_eval(exprs, imports, d, prelude=prelude, jobs=8, timeout=900)
+    except coqrun.CoqError as e:
+        ctx.notes.append('model evaluation retried after: %s' % str(e)[:200])
+        return coqrun.coq_eval(exprs, imports, d + '_retry', prelude=prelude, jobs=3, timeout=1200)
 
 META = {
     'id': 'C19',
@@ -198,7 +211,7 @@ def depth_of(v):
 
 def gen_docs(ctx):
     r = ctx.sub_rng('docs')
-    n = 450 if ctx.tier == 'quick' else 2600
+    n = 700 if ctx.tier == 'quick' else 3500
     docs = [(d, 'fixed') for d in FIXED_DOCS]
     while len(docs) < n:
         t = r.random()
@@ -544,7 +557,7 @@ def run(ctx):
         for fs in (False, True):
             exprs.append('run_case %s %s' % (coq_bool(fs), coq_json(d)))
     try:
-        model = ctx.coq(exprs, ['SchemaGen', 'T_SchemaTables'], prelude=make_prelude(O))
+        model = coq_eval_retry(ctx, exprs, ['SchemaGen', 'T_SchemaTables'], make_prelude(O), 'cases')
     except Exception as e:
         ctx.broken_tie('model evaluation failed: %s' % str(e)[:600])
 
@@ -680,7 +693,7 @@ def run(ctx):
         ctx.known_finding('F14a', still_fails=cli_predicate(w['case'], res) is not None)
     if model is not None:
         try:
-            cm = ctx.coq(cli_exprs, ['SchemaGen', 'T_SchemaTables'], prelude=make_prelude(O), tag='cli')
+            cm = coq_eval_retry(ctx, cli_exprs, ['SchemaGen', 'T_SchemaTables'], make_prelude(O), 'cli')
             for c, res, m in zip(ccases, cres, cm):
                 rc_m, out_m = m.split('|')
                 rc_i = hexs(str(res['rc']))
